@@ -93,6 +93,9 @@ func consistency(p *sysbind.PBKVS) string {
 
 func TestC14PrimaryBackup(t *testing.T) {
 	rapid.Check(t, func(t *rapid.T) {
+		if vstat.OverBudget() {
+			return
+		}
 		vstat.Case()
 		nr := rapid.IntRange(1, 4).Draw(t, "replicas")
 		nc := rapid.IntRange(1, 3).Draw(t, "clients")
